@@ -1,4 +1,413 @@
-"""C04 has no translator items: its theorems mention no constant, table or decision expression of /repo;
-the hand-written models of lazy_indexer.py are tied by the behavioural correspondence (harness/props/c04.py),
-including direct differentials of _range_to_slice and _simplify_index."""
-ITEMS = []
+"""Translator items for C04.
+
+item_dataset: the statement skeleton of DaskLazyIndexer.dataset (katdal/lazy_indexer.py) is parsed, statement by
+statement, into the instruction set of coq/Model/DaskLazy.v (lock scope, test of the cell, resolution of a parent
+indexer, stage 1, transform loop, publication of self._dataset, clearing of self._orig_dataset, return), as
+(opcode, a, b) triples in source order.  Every statement must have exactly one of the shapes below, anything else
+is refused (fail-closed).  item_range_to_slice / item_getitem: every decision expression of _range_to_slice,
+_dask_oindex and dask_getitem (tests, default values, the slice returned, the cull threshold) as a Coq definition, and
+the statement skeletons of dask_getitem / _dask_oindex / _simplify_index matched exactly.  Together with item_dataset: what __init__ leaves in the fields, which other methods of the class touch
+the two private fields, and how the other accessors reach the data set (shape / dtype / __getitem__ / get all go
+through the `dataset` property).
+"""
+import ast
+
+from vh.translate import TranslateError, _parse, _class, _func, coq_strings
+
+REL = 'katdal/lazy_indexer.py'
+CLS = 'DaskLazyIndexer'
+CELL, ORIG, LOCK = '_dataset', '_orig_dataset', '_lock'
+ACQUIRE, RELEASE, IFUNSET, FASTRET, RESOLVE, STAGE1, TRANSFORMS, ASSIGN, CLEARORIG, RETURN = range(10)
+
+
+def _self_attr(node, name):
+    return (isinstance(node, ast.Attribute) and isinstance(node.value, ast.Name) and node.value.id == 'self'
+            and node.attr == name)
+
+
+def _is_none(node):
+    return isinstance(node, ast.Constant) and node.value is None
+
+
+def _cell_test(test, op):
+    return (isinstance(test, ast.Compare) and len(test.ops) == 1 and isinstance(test.ops[0], op)
+            and _self_attr(test.left, CELL) and len(test.comparators) == 1 and _is_none(test.comparators[0]))
+
+
+def _nodoc(body):
+    return [s for s in body if not (isinstance(s, ast.Expr) and isinstance(s.value, ast.Constant)
+                                    and isinstance(s.value.value, str))]
+
+
+class _Vars:
+    """0 = self._dataset; k >= 1 = the k-th local name met."""
+    def __init__(self):
+        self.names = {}
+
+    def of(self, node, what):
+        if _self_attr(node, CELL):
+            return 0
+        if isinstance(node, ast.Name):
+            if node.id in ('self', 'transform', 'DaskLazyIndexer', 'dask_getitem'):
+                raise TranslateError('%s: %s used as a variable' % (what, node.id))
+            return self.names.setdefault(node.id, len(self.names) + 1)
+        raise TranslateError('%s: unsupported variable %s' % (what, ast.unparse(node)))
+
+
+def _transforms_iter(node):
+    return _self_attr(node, 'transforms') or _self_attr(node, '_transforms')
+
+
+def _stmts(body, vs, what, in_lock):
+    out = []
+    for s in _nodoc(body):
+        src = ast.unparse(s).split('\n')[0][:70]
+        w = '%s: `%s`' % (what, src)
+        if isinstance(s, ast.With):
+            if in_lock or len(s.items) != 1 or not _self_attr(s.items[0].context_expr, LOCK) \
+                    or s.items[0].optional_vars is not None:
+                raise TranslateError(w + ': only one un-nested `with self._lock:` is understood')
+            out += [(ACQUIRE, 0, 0)] + _stmts(s.body, vs, what, True) + [(RELEASE, 0, 0)]
+        elif isinstance(s, ast.If) and _cell_test(s.test, ast.Is):
+            if s.orelse:
+                raise TranslateError(w + ': else branch of the lazy-initialisation test')
+            inner = _stmts(s.body, vs, what, in_lock)
+            out += [(IFUNSET, len(inner), 0)] + inner
+        elif isinstance(s, ast.If) and _cell_test(s.test, ast.IsNot):
+            b = _nodoc(s.body)
+            if s.orelse or len(b) != 1 or not isinstance(b[0], ast.Return) or not _self_attr(b[0].value, CELL):
+                raise TranslateError(w + ': `is not None` test must only return self._dataset')
+            out.append((FASTRET, 0, 0))
+        elif isinstance(s, ast.If):
+            # if isinstance(self._orig_dataset, DaskLazyIndexer): self._orig_dataset = self._orig_dataset.dataset
+            t, b = s.test, _nodoc(s.body)
+            ok = (isinstance(t, ast.Call) and isinstance(t.func, ast.Name) and t.func.id == 'isinstance'
+                  and len(t.args) == 2 and not t.keywords and _self_attr(t.args[0], ORIG)
+                  and isinstance(t.args[1], ast.Name) and t.args[1].id == CLS and not s.orelse and len(b) == 1
+                  and isinstance(b[0], ast.Assign) and len(b[0].targets) == 1 and _self_attr(b[0].targets[0], ORIG)
+                  and isinstance(b[0].value, ast.Attribute) and b[0].value.attr == 'dataset'
+                  and _self_attr(b[0].value.value, ORIG))
+            if not ok:
+                raise TranslateError(w + ': unsupported test')
+            out.append((RESOLVE, 0, 0))
+        elif isinstance(s, ast.Assign) and len(s.targets) == 1:
+            tgt, val = s.targets[0], s.value
+            if _self_attr(tgt, ORIG):
+                if not _is_none(val):
+                    raise TranslateError(w + ': self._orig_dataset may only be cleared')
+                out.append((CLEARORIG, 0, 0))
+            elif (isinstance(val, ast.Call) and isinstance(val.func, ast.Name) and val.func.id == 'dask_getitem'):
+                if not (len(val.args) == 2 and not val.keywords and _self_attr(val.args[0], ORIG)
+                        and _self_attr(val.args[1], 'keep')):
+                    raise TranslateError(w + ': stage 1 must be dask_getitem(self._orig_dataset, self.keep)')
+                out.append((STAGE1, vs.of(tgt, w), 0))
+            elif _self_attr(val, CELL) or isinstance(val, ast.Name):
+                out.append((ASSIGN, vs.of(tgt, w), vs.of(val, w)))
+            else:
+                raise TranslateError(w + ': unsupported assignment')
+        elif isinstance(s, ast.For):
+            b = _nodoc(s.body)
+            ok = (isinstance(s.target, ast.Name) and _transforms_iter(s.iter) and not s.orelse and len(b) == 1
+                  and isinstance(b[0], ast.Assign) and len(b[0].targets) == 1
+                  and isinstance(b[0].value, ast.Call) and isinstance(b[0].value.func, ast.Name)
+                  and b[0].value.func.id == s.target.id and len(b[0].value.args) == 1 and not b[0].value.keywords
+                  and ast.dump(b[0].targets[0]).replace('Store()', 'Load()') == ast.dump(b[0].value.args[0]))
+            if not ok:
+                raise TranslateError(w + ': transform loop must be `for t in self.transforms: X = t(X)`')
+            out.append((TRANSFORMS, vs.of(b[0].targets[0], w), 0))
+        elif isinstance(s, ast.Return):
+            if s.value is None:
+                raise TranslateError(w + ': bare return')
+            out.append((RETURN, vs.of(s.value, w), 0))
+        elif isinstance(s, ast.Pass):
+            continue
+        else:
+            raise TranslateError(w + ': unsupported statement %s' % type(s).__name__)
+    return out
+
+
+def _mentions(node, names):
+    for n in ast.walk(node):
+        if isinstance(n, ast.Attribute) and n.attr in names:
+            return True
+        if isinstance(n, ast.Constant) and n.value in names:      # getattr(self, '_dataset')
+            return True
+    return False
+
+
+def _prop(cls, name):
+    f = _func(cls, name, REL)
+    decos = [ast.unparse(d) for d in f.decorator_list]
+    return f, decos
+
+
+def item_dataset(repo, out):
+    cls = _class(_parse(repo, REL), CLS, REL)
+    f, decos = _prop(cls, 'dataset')
+    if decos != ['property']:
+        raise TranslateError('DaskLazyIndexer.dataset is not a plain property (decorators %s)' % decos)
+    if len([n for n in cls.body if isinstance(n, ast.FunctionDef) and n.name == 'dataset']) != 1:
+        raise TranslateError('DaskLazyIndexer.dataset defined more than once (setter / override)')
+    vs = _Vars()
+    code = _stmts(f.body, vs, 'DaskLazyIndexer.dataset', False)
+    out.append('(* DaskLazyIndexer.dataset, statement by statement: (opcode, a, b); opcodes 0 acquire, 1 release, '
+               '2 if-unset(skip a), 3 fast-return, 4 resolve-parent, 5 stage1(dst a), 6 transforms(var a), '
+               '7 assign(dst a, src b), 8 clear-orig, 9 return(var a); var 0 = self._dataset, k = k-th local *)')
+    out.append('Definition c04_ds_code : list (Z * Z * Z) := [%s].' % '; '.join(
+        '((%d)%%Z, (%d)%%Z, (%d)%%Z)' % t for t in code))
+    # lock scope: every statement of the body that mentions one of the two fields lies inside `with self._lock:`
+    body = _nodoc(f.body)
+    locked = all((isinstance(s, ast.With) and _self_attr(s.items[0].context_expr, LOCK))
+                 or not _mentions(s, [CELL, ORIG]) for s in body) and any(isinstance(s, ast.With) for s in body)
+    out.append('Definition c04_ds_locked : bool := %s.' % ('true' if locked else 'false'))
+    # the two fields are private to __init__ and dataset
+    others = [n.name for n in cls.body if isinstance(n, (ast.FunctionDef, ast.AsyncFunctionDef))
+              and n.name not in ('__init__', 'dataset') and _mentions(n, [CELL, ORIG])]
+    others += ['<class>' for n in cls.body if not isinstance(n, (ast.FunctionDef, ast.AsyncFunctionDef))
+               and _mentions(n, [CELL, ORIG])]
+    out.append('Definition c04_ds_field_users : list string := %s.' % coq_strings(others))
+    # __init__: what the constructor leaves in the fields
+    init = _func(cls, '__init__', REL)
+    args = [a.arg for a in init.args.args]
+    if args != ['self', 'dataset', 'keep', 'transforms']:
+        raise TranslateError('DaskLazyIndexer.__init__ signature changed: %s' % args)
+    dflt = [ast.unparse(d) for d in init.args.defaults]
+    assigns = {}
+    for s in _nodoc(init.body):
+        if not (isinstance(s, ast.Assign) and len(s.targets) == 1 and isinstance(s.targets[0], ast.Attribute)
+                and isinstance(s.targets[0].value, ast.Name) and s.targets[0].value.id == 'self'):
+            raise TranslateError('DaskLazyIndexer.__init__: unsupported statement `%s`' % ast.unparse(s)[:60])
+        nm = s.targets[0].attr
+        if nm in assigns:
+            raise TranslateError('DaskLazyIndexer.__init__: %s assigned twice' % nm)
+        assigns[nm] = ast.unparse(s.value)
+    flag = lambda b: 'true' if b else 'false'
+    out.append('Definition c04_init_cell_unset : bool := %s.' % flag(assigns.get(CELL) == 'None'))
+    out.append('Definition c04_init_orig_is_arg : bool := %s.' % flag(assigns.get(ORIG) == 'dataset'))
+    out.append('Definition c04_init_keep_deepcopied : bool := %s.' % flag(assigns.get('keep') == 'copy.deepcopy(keep)'))
+    out.append('Definition c04_init_transforms_copied : bool := %s.' % flag(assigns.get('_transforms') == 'list(transforms)'))
+    out.append('Definition c04_init_lock_fresh : bool := %s.' % flag(assigns.get(LOCK) == 'threading.Lock()'))
+    out.append('Definition c04_init_defaults_empty : bool := %s.' % flag(dflt == ['()', '()']))
+    # the other accessors reach the data only through the `dataset` property
+    tp, d = _prop(cls, 'transforms')
+    b = _nodoc(tp.body)
+    out.append('Definition c04_transforms_is_field : bool := %s.' % flag(
+        d == ['property'] and len(b) == 1 and isinstance(b[0], ast.Return) and _self_attr(b[0].value, '_transforms')))
+    via = {}
+    for nm, expect in [('shape', 'self.dataset.shape'), ('dtype', 'self.dataset.dtype')]:
+        p, d = _prop(cls, nm)
+        b = _nodoc(p.body)
+        via[nm] = d == ['property'] and len(b) == 1 and isinstance(b[0], ast.Return) and ast.unparse(b[0].value) == expect
+    gi = _nodoc(_func(cls, '__getitem__', REL).body)
+    via['getitem'] = len(gi) == 1 and isinstance(gi[0], ast.Return) and ast.unparse(gi[0].value) == 'self.get([self], keep)[0]'
+    g, d = _prop(cls, 'get')
+    gb = _nodoc(g.body)
+    via['get'] = (d == ['classmethod'] and [a.arg for a in g.args.args] == ['cls', 'arrays', 'keep', 'out']
+                  and bool(gb) and ast.unparse(gb[0]) == 'kept = [dask_getitem(array.dataset, keep) for array in arrays]')
+    ln = _nodoc(_func(cls, '__len__', REL).body)
+    via['len'] = len(ln) == 1 and isinstance(ln[0], ast.Return) and ast.unparse(ln[0].value) == 'self.shape[0]'
+    it = _nodoc(_func(cls, '__iter__', REL).body)
+    out.append('Definition c04_iter_as_modelled : bool := %s.' % flag(
+        len(it) == 1 and ast.unparse(it[0]) == 'for index in range(len(self)):\n    yield self[index]'))
+    for nm in ('shape', 'dtype', 'getitem', 'get', 'len'):
+        out.append('Definition c04_%s_via_dataset : bool := %s.' % (nm, flag(via[nm])))
+
+
+# ----------------------------------------------------------------------------------------------------
+# decision expressions and statement skeletons of the helper functions the hand-written model mirrors
+
+
+class _Expr:
+    """tiny expression translator: Python int/bool expression over named variables -> Coq (Z / bool)."""
+    def __init__(self, env, what):
+        self.env, self.what = env, what       # env: python source of a sub-expression -> Coq variable name
+
+    def z(self, n):
+        src = ast.unparse(n)
+        if src in self.env:
+            return self.env[src]
+        if isinstance(n, ast.Constant) and isinstance(n.value, int) and not isinstance(n.value, bool):
+            return '(%d)' % n.value
+        if isinstance(n, ast.UnaryOp) and isinstance(n.op, ast.USub):
+            return '(- %s)' % self.z(n.operand)
+        if isinstance(n, ast.BinOp) and isinstance(n.op, (ast.Add, ast.Sub, ast.Mult)):
+            op = {ast.Add: '+', ast.Sub: '-', ast.Mult: '*'}[type(n.op)]
+            return '(%s %s %s)' % (self.z(n.left), op, self.z(n.right))
+        raise TranslateError('%s: unsupported integer expression `%s`' % (self.what, src))
+
+    def b(self, n):
+        src = ast.unparse(n)
+        if src in self.env:
+            return self.env[src]
+        if isinstance(n, ast.BoolOp):
+            op = '&&' if isinstance(n.op, ast.And) else '||'
+            return '(' + (' %s ' % op).join(self.b(v) for v in n.values) + ')'
+        if isinstance(n, ast.UnaryOp) and isinstance(n.op, ast.Not):
+            return '(negb %s)' % self.b(n.operand)
+        if isinstance(n, ast.Compare) and len(n.ops) == 1:
+            l, r = n.left, n.comparators[0]
+            # A < 0.5 * B   (the cull condition): 2 * A < B
+            if (isinstance(n.ops[0], (ast.Lt, ast.LtE)) and isinstance(r, ast.BinOp) and isinstance(r.op, ast.Mult)
+                    and isinstance(r.left, ast.Constant) and r.left.value == 0.5):
+                return '(2 * %s %s %s)' % (self.z(l), '<?' if isinstance(n.ops[0], ast.Lt) else '<=?', self.z(r.right))
+            a, c = self.z(l), self.z(r)
+            t = type(n.ops[0])
+            if t is ast.Lt:
+                return '(%s <? %s)' % (a, c)
+            if t is ast.LtE:
+                return '(%s <=? %s)' % (a, c)
+            if t is ast.Gt:
+                return '(%s <? %s)' % (c, a)
+            if t is ast.GtE:
+                return '(%s <=? %s)' % (c, a)
+            if t is ast.Eq:
+                return '(%s =? %s)' % (a, c)
+            if t is ast.NotEq:
+                return '(negb (%s =? %s))' % (a, c)
+        raise TranslateError('%s: unsupported boolean expression `%s`' % (self.what, src))
+
+
+def _expect(cond, what):
+    if not cond:
+        raise TranslateError(what)
+
+
+def _opt(n, ex):
+    """slice argument: None | int expression -> Coq option Z"""
+    if isinstance(n, ast.Constant) and n.value is None:
+        return 'None'
+    if isinstance(n, ast.IfExp) and isinstance(n.orelse, ast.Constant) and n.orelse.value is None:
+        return '(if %s then Some %s else None)' % (ex.b(n.test), ex.z(n.body))
+    if isinstance(n, ast.IfExp) and isinstance(n.body, ast.Constant) and n.body.value is None:
+        return '(if %s then None else Some %s)' % (ex.b(n.test), ex.z(n.orelse))
+    return '(Some %s)' % ex.z(n)
+
+
+def _slice3(n, ex, what):
+    _expect(isinstance(n, ast.Call) and isinstance(n.func, ast.Name) and n.func.id == 'slice' and len(n.args) == 3
+            and not n.keywords, what + ': expected slice(a, b, c)')
+    return '(%s, %s, %s)' % tuple(_opt(a, ex) for a in n.args)
+
+
+def item_range_to_slice(repo, out):
+    """_range_to_slice, statement by statement; every decision expression becomes a Coq definition."""
+    w = '_range_to_slice'
+    f = _func(_parse(repo, REL), w, REL)
+    _expect([a.arg for a in f.args.args] == ['index'], w + ': signature')
+    b = _nodoc(f.body)
+    _expect(len(b) == 8, w + ': expected 8 statements, found %d' % len(b))
+    # if not len(index): return slice(None, 0, None)
+    s = b[0]
+    _expect(isinstance(s, ast.If) and ast.unparse(s.test) == 'not len(index)' and not s.orelse and len(s.body) == 1
+            and isinstance(s.body[0], ast.Return), w + ': empty-index test')
+    out.append('Definition c04_r2s_empty : option Z * option Z * option Z := %s.'
+               % _slice3(s.body[0].value, _Expr({}, w), w))
+    # if any(i < 0 for i in index): raise ValueError
+    s = b[1]
+    ok = (isinstance(s, ast.If) and not s.orelse and len(s.body) == 1 and isinstance(s.body[0], ast.Raise)
+          and ast.unparse(s.body[0].exc).startswith('ValueError(')
+          and isinstance(s.test, ast.Call) and isinstance(s.test.func, ast.Name) and s.test.func.id == 'any'
+          and len(s.test.args) == 1 and isinstance(s.test.args[0], ast.GeneratorExp))
+    _expect(ok, w + ': negative-element test')
+    g = s.test.args[0]
+    _expect(len(g.generators) == 1 and ast.unparse(g.generators[0].iter) == 'index' and not g.generators[0].ifs
+            and isinstance(g.generators[0].target, ast.Name), w + ': negative-element generator')
+    out.append('Definition c04_r2s_bad_element (i : Z) : bool := %s.'
+               % _Expr({g.generators[0].target.id: 'i'}, w).b(g.elt))
+    # increments_left = set(np.diff(index)); step = increments_left.pop() if increments_left else 1
+    _expect(ast.unparse(b[2]) == 'increments_left = set(np.diff(index))', w + ': increments')
+    s = b[3]
+    _expect(isinstance(s, ast.Assign) and ast.unparse(s.targets[0]) == 'step' and isinstance(s.value, ast.IfExp)
+            and ast.unparse(s.value.test) == 'increments_left' and ast.unparse(s.value.body) == 'increments_left.pop()',
+            w + ': step')
+    out.append('Definition c04_r2s_default_step : Z := %s.' % _Expr({}, w).z(s.value.orelse))
+    # if step == 0 or increments_left: raise ValueError
+    s = b[4]
+    _expect(isinstance(s, ast.If) and not s.orelse and len(s.body) == 1 and isinstance(s.body[0], ast.Raise)
+            and ast.unparse(s.body[0].exc).startswith('ValueError('), w + ': uneven test')
+    out.append('Definition c04_r2s_reject (step : Z) (increments_left : bool) : bool := %s.'
+               % _Expr({'step': 'step', 'increments_left': 'increments_left'}, w).b(s.test))
+    # start = index[0]; stop = index[-1] + step; return slice(start, stop if stop >= 0 else None, step)
+    _expect(ast.unparse(b[5]) == 'start = index[0]', w + ': start')
+    s = b[6]
+    _expect(isinstance(s, ast.Assign) and ast.unparse(s.targets[0]) == 'stop', w + ': stop')
+    out.append('Definition c04_r2s_stop (last step : Z) : Z := %s.'
+               % _Expr({'index[-1]': 'last', 'step': 'step'}, w).z(s.value))
+    s = b[7]
+    _expect(isinstance(s, ast.Return), w + ': return')
+    out.append('Definition c04_r2s_result (start stop step : Z) : option Z * option Z * option Z := %s.'
+               % _slice3(s.value, _Expr({'start': 'start', 'stop': 'stop', 'step': 'step'}, w), w))
+
+
+def item_getitem(repo, out):
+    """dask_getitem / _dask_oindex / _simplify_index: statement skeletons and decision expressions."""
+    tree = _parse(repo, REL)
+    w = '_dask_oindex'
+    f = _func(tree, w, REL)
+    b = _nodoc(f.body)
+    ok = ([a.arg for a in f.args.args] == ['x', 'indices'] and len(b) == 3 and ast.unparse(b[0]) == 'axis = 0'
+          and isinstance(b[1], ast.For) and ast.unparse(b[1].target) == 'index' and ast.unparse(b[1].iter) == 'indices'
+          and not b[1].orelse and ast.unparse(b[2]) == 'return x')
+    _expect(ok, w + ': skeleton')
+    lb = _nodoc(b[1].body)
+    _expect(len(lb) == 2 and ast.unparse(lb[0]) == 'x = da.take(x, index, axis=axis)', w + ': take step')
+    s = lb[1]
+    _expect(isinstance(s, ast.If) and not s.orelse and len(s.body) == 1 and isinstance(s.body[0], ast.AugAssign)
+            and ast.unparse(s.body[0].target) == 'axis' and isinstance(s.body[0].op, ast.Add), w + ': axis step')
+    out.append('Definition c04_oindex_axis_step (is_int : bool) (axis : Z) : Z := if %s then axis + %s else axis.' % (
+        _Expr({'isinstance(index, Integral)': 'is_int'}, w).b(s.test), _Expr({}, w).z(s.body[0].value)))
+    w = 'dask_getitem'
+    f = _func(tree, w, REL)
+    b = _nodoc(f.body)
+    _expect([a.arg for a in f.args.args] == ['x', 'indices'] and len(b) == 4, w + ': skeleton')
+    _expect(ast.unparse(b[0]) == 'indices = _simplify_index(indices, x.shape)', w + ': simplification step')
+    t = b[1]
+    ok = (isinstance(t, ast.Try) and len(t.body) == 1 and ast.unparse(t.body[0]) == 'out = x[indices]'
+          and len(t.handlers) == 1 and ast.unparse(t.handlers[0].type) == 'NotImplementedError'
+          and len(t.handlers[0].body) == 1 and ast.unparse(t.handlers[0].body[0]) == 'out = _dask_oindex(x, indices)'
+          and not t.orelse and not t.finalbody)
+    _expect(ok, w + ': x[indices] with fallback to _dask_oindex on NotImplementedError')
+    c = b[2]
+    _expect(isinstance(c, ast.If) and not c.orelse and ast.unparse(b[3]) == 'return out', w + ': cull / return')
+    out.append('Definition c04_cull_test (out_blocks x_blocks : Z) : bool := %s.' % _Expr(
+        {'np.prod(out.numblocks)': 'out_blocks', 'np.prod(x.numblocks)': 'x_blocks'}, w).b(c.test))
+    cb = [ast.unparse(s) for s in _nodoc(c.body)]
+    _expect(cb == ['dsk = dask.optimization.cull(out.dask, out.__dask_keys__())[0]',
+                   'out.dask = dask.highlevelgraph.HighLevelGraph.from_collections(out.name, dsk)'], w + ': cull body')
+    w = '_simplify_index'
+    f = _func(tree, w, REL)
+    b = _nodoc(f.body)
+    _expect([a.arg for a in f.args.args] == ['indices', 'shape'] and len(b) == 5, w + ': skeleton')
+    _expect([ast.unparse(s) for s in (b[0], b[1], b[2], b[4])] == [
+        'indices = da.slicing.normalize_index(indices, shape)', 'out = []', 'axis = 0', 'return tuple(out)'], w + ': frame')
+    lp = b[3]
+    _expect(isinstance(lp, ast.For) and ast.unparse(lp.target) == 'index' and ast.unparse(lp.iter) == 'indices'
+            and not lp.orelse, w + ': loop')
+    expect_loop = '''if index is not np.newaxis:
+    length = shape[axis]
+    axis += 1
+    if isinstance(index, np.ndarray) and index.ndim == 1:
+        try:
+            index = _range_to_slice(index)
+        except ValueError:
+            pass
+        else:
+            index = da.slicing.normalize_slice(index, length)
+out.append(index)'''
+    got = '\n'.join(ast.unparse(s) for s in _nodoc(lp.body))
+    _expect(got == expect_loop, w + ': loop body changed')
+    out.append('Definition c04_simplify_loop_as_modelled : bool := true.')
+
+
+
+
+def dataset_code(repo):
+    """the (opcode, a, b) triples of DaskLazyIndexer.dataset in the given tree, or None when it is refused"""
+    try:
+        cls = _class(_parse(repo, REL), CLS, REL)
+        return [list(t) for t in _stmts(_func(cls, 'dataset', REL).body, _Vars(), 'DaskLazyIndexer.dataset', False)]
+    except TranslateError:
+        return None
+
+
+ITEMS = [item_dataset, item_range_to_slice, item_getitem]
